@@ -106,6 +106,7 @@ func verifC10Files() [][]byte {
 	cat := func(parts ...[]byte) []byte { return bytes.Join(parts, nil) }
 	multi := [][]byte{
 		cat(a, a), cat(a, b), cat(b, a), cat(c, c), cat(a, a, a), cat(a, b, c), cat(c, b, a), cat(hdr, hdr), cat(hdr, a), cat(a, hdr),
+		cat(hdr, hdr, hdr), cat(c, c, c), cat(hdr, c, hdr), cat(c, hdr, c, hdr), cat(hdr, hdr, hdr, hdr, hdr),
 		cat(a, []byte("GGUF")), cat(a, []byte("GGU")), cat(a, []byte{0}), cat(a, []byte("GGUF\x03\x00\x00\x00")), cat(a, []byte("GGUF\x03\x00\x00\x00\x00\x00\x00\x00")),
 		cat(a, []byte("not a model")), cat(a, a[:len(a)/2]), cat(a, b[:30]), cat(b, a[:len(a)-1]), cat(c, c[:24]), cat(c, c[:23]),
 	}
@@ -196,18 +197,30 @@ func TestVerifC10APIChild(t *testing.T) {
 				Layers []struct {
 					MediaType string `json:"mediaType"`
 					Size      int64  `json:"size"`
+					Digest    string `json:"digest"`
 				} `json:"layers"`
 			}
 			if json.Unmarshal(man, &mf) == nil {
-				var sizes, media []string
+				var sizes, media, exact []string
 				for _, l := range mf.Layers {
 					switch l.MediaType {
 					case "application/vnd.ollama.image.model", "application/vnd.ollama.image.adapter", "application/vnd.ollama.image.projector":
 						sizes = append(sizes, strconv.FormatInt(l.Size, 10))
 						media = append(media, l.MediaType[len("application/vnd.ollama.image."):][:1])
+						// C05: a layer cut out of an upload is exactly one model: decoding the layer's own blob ends at its size
+						ex := "?"
+						if lb, err := os.ReadFile(filepath.Join(os.Getenv("OLLAMA_MODELS"), "blobs", strings.Replace(l.Digest, ":", "-", 1))); err == nil {
+							if _, end, err := ggml.Decode(bytes.NewReader(lb), 0); err == nil && end == int64(len(lb)) {
+								ex = "1"
+							} else {
+								ex = fmt.Sprintf("0(end=%d,size=%d)", end, len(lb))
+							}
+						}
+						exact = append(exact, ex)
 					}
 				}
 				fmt.Printf("VERIF layers=%s media=%s\n", strings.Join(sizes, ","), strings.Join(media, ","))
+				fmt.Printf("VERIF layerexact=%s\n", strings.Join(exact, ","))
 			}
 		}
 	case "show":
@@ -290,7 +303,12 @@ func TestVerifC10API(t *testing.T) {
 			case strings.HasPrefix(r.res, "death"), strings.HasPrefix(r.res, "unknown"), strings.HasPrefix(r.res, "panic-recovered"), strings.HasPrefix(r.res, "no-error"):
 				impl = strings.Fields(r.res)[0]
 			case strings.HasPrefix(r.res, "create=200 error=false"):
-				impl = "ok sizes=" + r.layers // "<n1,n2,…> media=<m|a|p,…>" 
+				lay := r.layers
+				if i := strings.Index(lay, " inexact="); i >= 0 {
+					out.L2("api-create-layer-not-one-model", caseLine, "a layer cut out of the upload is not exactly one model (decode of the layer's own blob does not end at its size): "+lay[i+9:])
+					lay = lay[:i]
+				}
+				impl = "ok sizes=" + lay // "<n1,n2,…> media=<m|a|p,…>" 
 			}
 			out.Case(fmt.Sprintf("gguf-layers %d %s", maxSeek, zzverif.Hex(files[r.idx])), impl)
 			if r.idx >= verifC10MultiStart {
@@ -345,11 +363,14 @@ func verifC10RunChild(idx int, mode string) (string, string) {
 		res = "hang"
 	}
 	text := buf.String()
-	var status, alive, layers string
+	var status, alive, layers, inexact string
 	undecodable := false
 	for _, line := range strings.Split(text, "\n") {
 		if strings.HasPrefix(line, "VERIF layers=") {
 			layers = strings.TrimPrefix(line, "VERIF layers=")
+		}
+		if strings.HasPrefix(line, "VERIF layerexact=") && strings.Contains(line, "0(") {
+			inexact = strings.TrimPrefix(line, "VERIF layerexact=")
 		}
 		if strings.HasPrefix(line, "VERIF "+mode+"=") {
 			status = strings.TrimPrefix(line, "VERIF ")
@@ -382,6 +403,9 @@ func verifC10RunChild(idx int, mode string) (string, string) {
 		res = "death " + msg
 	default:
 		res = "unknown " + strings.ReplaceAll(text[max(0, len(text)-200):], "\n", " ")
+	}
+	if inexact != "" {
+		layers += " inexact=" + inexact
 	}
 	return res, layers
 }
